@@ -327,6 +327,7 @@ func c13Run(w *verifrt.World, tier Tier) *RunResult {
 
 	type finding struct{ clause, fp, detail string }
 	findings := make([][]finding, len(sc.Tasks)+sc.Direct)
+	pnotes := make([][]runNote, len(sc.Tasks)) // per task: tasks must not share a slice (the hand-over is invisible to the race detector)
 	runOps := func(ti int, ops []c13Op) {
 		slots := map[int]*wafHandle{}
 		slotCfg := map[int]int{}
@@ -365,6 +366,7 @@ func c13Run(w *verifrt.World, tier Tier) *RunResult {
 				}
 				ci := slotCfg[o.Slot]
 				got := runTx(h, reqs[o.Req])
+				pnotes[ti] = append(pnotes[ti], runNote{fmt.Sprintf("probe:task%d-op%d", ti, oi), fullJSON(got)})
 				g := c13Table[ci]
 				if g.Class != "" || o.Req >= len(g.Probes) {
 					continue
@@ -447,6 +449,9 @@ func c13Run(w *verifrt.World, tier Tier) *RunResult {
 			res.fail("C13", f.clause, f.fp, "%s", f.detail)
 		}
 	}
+	for _, ns := range pnotes {
+		res.Notes = append(res.Notes, ns...)
+	}
 	nb := 0
 	for _, ops := range sc.Tasks {
 		for _, o := range ops {
@@ -460,9 +465,14 @@ func c13Run(w *verifrt.World, tier Tier) *RunResult {
 	return res
 }
 
+func fullJSON(v any) string {
+	b, _ := json.Marshal(v)
+	return string(b)
+}
+
 func init() {
 	register(&Check{
-		ID: "C13", Level: "exploration", NeedsRace: true, Isolated: true, Run: c13Run, Prepare: c13Prepare,
+		ID: "C13", Level: "exploration", NeedsRace: true, Isolated: true, HistoryProbe: true, Run: c13Run, Prepare: c13Prepare,
 		Runs:       [2]int{6000, 400000},
 		MaxSeconds: [2]int{120, 1700},
 		Rule: "one run = a history of build / close / probe operations (<= 10 per task, <= 4 live WAFs per task) over a pool of ~500 configurations that put the same string into different cache-using roles (@pm phrase list, @pmFromDataset name with differing contents, @pmFromFile name under differing root file systems, ARGS:/S/ regex key, negated regex key, ctl regex key, @restpath, @validateNid, SecAuditLogRelevantStatus, @rx with SecRxPreFilter On/Off, and every pair of them); " +
